@@ -13,7 +13,7 @@
 //   all modes: S<k> sleep k time units (unit = 2^-10 s, exactly representable, so that dates tie exactly), Y yield
 //   sem: A<s> acquire, T<s>:<t> acquire_timeout, R<s> release, C<s> get_capacity, X<v> kill actor v if it is blocked in an acquire
 //   cv:  L<v> lock mutex v, U<v> unlock, W<v> wait, F<v>:<t> wait_for, G<v>:<k> wait_until(date k units; "+k" = k units from now), N<v> notify_one, B<v> notify_all
-//   bar: B<b> wait
+//   bar: B<b> wait, X<v> kill actor v if it is blocked in a barrier wait
 //   timeout token <t>: integer number of units | "t" (1e-12 s, below the timing precision) | "n" (-1 s; cv only)
 // The harness only issues calls that respect the API contract (wait only while holding the paired mutex, unlock only what is held,
 // at most one mutex held at a time, no relock of a held mutex).
@@ -36,10 +36,19 @@ struct Scn {
   std::vector<sg4::BarrierPtr> bars;
   std::vector<sg4::ActorPtr> actors;
   std::vector<char> blocked; // actor a is inside an acquire/acquire_timeout call (set before the call, cleared after the return)
+  std::vector<int> inwait;   // bar mode: barrier on which actor a (scripted or helper) is inside wait(), -1 otherwise
   bool dirty = false;        // something was logged since the last K line
   bool sweep = true;         // bar mode: complete trailing groups with helper actors once the scripts are stuck
-  std::vector<unsigned> sizes, arrivals; // bar mode: size of each barrier, number of wait() calls issued so far
-  size_t done = 0, helpers = 0;
+  std::vector<unsigned> sizes; // bar mode: size of each barrier
+  std::vector<char> fin; // scripted actor a finished its script or was killed
+  size_t helpers = 0;
+  size_t done() const
+  {
+    size_t n = 0;
+    for (char f : fin)
+      n += f;
+    return n;
+  }
   std::vector<std::vector<std::string>> scripts;
 };
 static std::vector<std::unique_ptr<Scn>> scns;
@@ -207,36 +216,48 @@ static void run_bar(Scn& sc, size_t a, const std::vector<std::string>& ops)
     if (k == 'S') {
       sg4::this_actor::sleep_for(b * UNIT);
     } else if (k == 'B') {
-      sc.arrivals[b]++;
       printf("%d Q %zu B %d - %.17g\n", i, a, b, clk());
-      int r = sc.bars[b]->wait();
+      sc.inwait[a] = b;
+      int r        = sc.bars[b]->wait();
+      sc.inwait[a] = -1;
       printf("%d A %zu B %d %d %.17g 0\n", i, a, b, r, clk());
+    } else if (k == 'X') {
+      size_t v = b;
+      if (v == a || v >= sc.actors.size() || sc.inwait[v] < 0)
+        continue;
+      printf("%d Q %zu X %zu - %.17g\n", i, a, v, clk());
+      sc.inwait[v] = -1;
+      sc.fin[v] = 1; // the victim will not finish its script
+      sc.actors[v]->kill();
+      printf("%d A %zu X %zu 0 %.17g 0\n", i, a, v, clk());
     }
   }
 }
 
 // An actor blocked for ever on a barrier makes the simulation end with the kernel killing it, which is not what C07 is about: once
-// every scripted actor is done or stuck, helper actors (numbered after the scripted ones, logged like them) arrive on the barriers
-// whose last group is incomplete. Until then (64 time units, longer than any script) the incomplete group must stay blocked.
+// every scripted actor is done or stuck, helper actors (numbered after the scripted ones, logged like them) arrive one at a time on a
+// barrier where somebody is blocked, until nobody is blocked any more (this does not presuppose how many arrivals the kernel still
+// expects, e.g. whether a killed waiter still counts). Before each helper the blocked actors are left alone for 64 time units
+// (longer than any script): nobody may return meanwhile.
+static const size_t MAX_HELPERS = 64;
 static void run_sweeper(Scn& sc)
 {
   auto hosts = sg4::Engine::get_instance()->get_all_hosts();
   while (true) {
     sg4::this_actor::sleep_for(64 * UNIT);
-    bool any = false;
-    for (size_t b = 0; b < sc.bars.size(); b++) {
-      unsigned r = sc.arrivals[b] % sc.sizes[b];
-      for (unsigned j = r; r != 0 && j < sc.sizes[b]; j++) {
-        any      = true;
-        size_t a = sc.scripts.size() + sc.helpers++;
-        hosts[a % hosts.size()]->add_actor("helper", [&sc, a, b]() {
-          run_bar(sc, a, {"B" + std::to_string(b)});
-          printf("%d D %zu\n", sc.id, a);
-        });
-      }
-    }
-    if (not any && sc.done == sc.scripts.size())
+    int b = -1;
+    for (int w : sc.inwait)
+      if (w >= 0 && (b < 0 || w < b))
+        b = w;
+    if (b >= 0 && sc.helpers < MAX_HELPERS) {
+      size_t a = sc.scripts.size() + sc.helpers++;
+      hosts[a % hosts.size()]->add_actor("helper", [&sc, a, b]() {
+        run_bar(sc, a, {"B" + std::to_string(b)});
+        printf("%d D %zu\n", sc.id, a);
+      });
+    } else if (sc.done() == sc.scripts.size()) {
       return;
+    }
   }
 }
 
@@ -271,7 +292,6 @@ int main(int argc, char** argv)
         }
         int x = std::stoi(toks[j]);
         cur->sizes.push_back(x);
-        cur->arrivals.push_back(0);
         if (cur->mode == "sem")
           cur->sems.push_back(sg4::Semaphore::create(x));
         else if (cur->mode == "bar")
@@ -291,6 +311,8 @@ int main(int argc, char** argv)
   for (auto& scp : scns) {
     Scn* sc = scp.get();
     sc->blocked.assign(sc->scripts.size(), 0);
+    sc->fin.assign(sc->scripts.size(), 0);
+    sc->inwait.assign(sc->scripts.size() + MAX_HELPERS, -1);
     for (size_t a = 0; a < sc->scripts.size(); a++) {
       sc->actors.push_back(hosts[h++ % hosts.size()]->add_actor("s" + std::to_string(sc->id) + "a" + std::to_string(a), [sc, a]() {
         if (sc->mode == "sem")
@@ -300,7 +322,7 @@ int main(int argc, char** argv)
         else
           run_bar(*sc, a, sc->scripts[a]);
         sc->dirty = true;
-        sc->done++;
+        sc->fin[a] = 1;
         printf("%d D %zu\n", sc->id, a);
       }));
     }
